@@ -1358,7 +1358,7 @@ func (tr *trans) varAt(h *ssa.BasicBlock, name string, predIdx int, st State) (S
 					return env.goSV(tr.val(x), x.Type()), true
 				}
 			case *ssa.DebugRef:
-				if obj := x.Object(); obj != nil && obj.Name() == name {
+				if obj := x.Object(); obj != nil && !isFieldObj(obj) && obj.Name() == name {
 					if x.IsAddr {
 						l := tr.locOf(x.X)
 						return env.goSV(tr.load(st, l), l.ty), true
@@ -1408,7 +1408,7 @@ func (tr *trans) varAtEnd(b *ssa.BasicBlock, name string, st State) (SV, bool) {
 					return env.goSV(tr.val(x), x.Type()), true
 				}
 			case *ssa.DebugRef:
-				if obj := x.Object(); obj != nil && obj.Name() == name && !x.IsAddr {
+				if obj := x.Object(); obj != nil && !isFieldObj(obj) && obj.Name() == name && !x.IsAddr {
 					if _, ok := tr.vals[x.X]; ok {
 						return env.goSV(tr.val(x.X), x.X.Type()), true
 					}
@@ -1754,4 +1754,11 @@ func sameWrites(a, b map[int]map[string]*writeSet) bool {
 		}
 	}
 	return true
+}
+
+// isFieldObj: the object of a debug reference is a struct field (a selector expression x.f is recorded under the
+// field's object); a field must never be taken for a local variable of the same name.
+func isFieldObj(o types.Object) bool {
+	v, ok := o.(*types.Var)
+	return ok && v.IsField()
 }
